@@ -72,7 +72,7 @@ def strategy(tier):
         if conts:
             extra.append(st.fixed_dictionaries({"op": st.just("reset_sub"), "cont": st.integers(0, len(conts) - 1)}))
         base = ops.single_op(spec)
-        return st.fixed_dictionaries({"spec": st.just(spec), "ops": st.lists(st.one_of(base, base, *extra), min_size=4, max_size=n)})
+        return st.fixed_dictionaries({"spec": st.just(spec), "ops": st.lists(ops.weighted((1, base), (1, st.one_of(*extra))) if extra else base, min_size=4, max_size=n)})
     return worlds.schema_spec(tier).flatmap(hist)
 
 
